@@ -391,9 +391,10 @@ func TestC04_Merge(t *testing.T) {
 	rapid.Check(t, func(rt *rapid.T) {
 		v := th.PickVariant(rt, c04Variants...)
 		m := genC04Tree(rt, v)
-		sp := &splitter{rt: rt, v: v, compat: true}
-		a, b := sp.split(m)
 		overwrite := rapid.Bool().Draw(rt, "overwrite")
+		// with the overwrite option leaf conflicts are legal input: b's value wins, and it must be a copy
+		sp := &splitter{rt: rt, v: v, compat: !overwrite || rapid.Bool().Draw(rt, "compat"), leafConflictsOnly: true}
+		a, b := sp.split(m)
 		dir := rapid.SampledFrom([]string{"result", "result", "a", "b", "a+b"}).Draw(rt, "side")
 		mode := drawMode(rt)
 		cl, nt := c04Classes(m)
